@@ -48,6 +48,14 @@ CLAIMS = {
    text="Kernel-checked theorems about the assembler construction of parser.cpp for an ARBITRARY token function (parsing a renderable opcode's token list returns the least opcode with that text and its expansion status; unknown lists are invalid; the build aborts exactly on a violated bit-superset condition; under 'same text only if same table entry and operands, differing in unused bits' the assembled opcode decodes, executes and prints identically) and about the C binding (returns the text length, writes only inside the buffer, NUL directly after the copied text, nothing for size 0). The disassembler's text (disassembler.cpp) is NOT modelled: the finite fact 'same text only if they differ in unused bits' over all 65536 first words, Do = joined tokens, Parse = least opcode of the group, second-word printing, are established on every run by complete enumeration of the real code (a golden token pin detects text changes that stay injective); the C binding is run for every buffer size 0..64 with canaries; the four hwtest firmware sources are assembled with the real makedsp1 and compared byte-for-byte with the shipped binaries, disassembled and re-assembled.",
    note=NOTE_COMMON + " For the token text the assurance is exhaustive enumeration of a finite table on the real code (first words complete, second words sampled), not a theorem about disassembler.cpp.",
    tech="Lean 4 theorems about the parser construction and C binding + complete enumeration of the first-word table on the real code", ref="§7 C05"),
+ "C01": dict(
+   text="The reference semantics is the Lean function Teakra.cycle over one hand-transcribed definition per C++ handler overload (all 336 overloads of the 443 decode patterns) and the ~40 shared helpers; it is frozen in /verif and checked against the implementation on every run: EVERY defined first word (65466) is executed from several seeded register/memory states (plus states inside a single-instruction repeat, inside 1-4 nested block repeats with the frame end at/next to the instruction, and with interrupts enabled and pending) on a real Teakra and on the model, and all 243 register-file fields plus the ordered memory-access log are compared. Proved: the dispatcher's decode table equals the audited C02 table entry by entry (re-proved when decoder.h changes), so the model fetches/extracts exactly what C02's theorems speak about. Generator clause: every record the project's own generator emits (real generator, 4 per enabled opcode) is executed as test_verifier sets it up and checked on the real code for no assertion abort, pc = instruction length, and data accesses only inside the two compared windows.",
+   note=NOTE_COMMON + " 'Hardware-validated' cannot be checked here (the hardware result file is a git-lfs pointer): the reference is the transcription of the pinned interpreter.h. Equality of implementation and reference is established by differential execution (exhaustive in the first word, sampled in state and second word), not by a theorem; value-level exactness of the helpers is C03/C04/C10.",
+   tech="Lean 4 executable reference model + exhaustive-in-opcode instruction-level correspondence + kernel-checked decode-table agreement", ref="§7 C01"),
+ "C19": dict(
+   text="The lock discipline is translated from apbp.cpp, icu.h, interpreter.h, processor.cpp, teakra.cpp, mmio.cpp on every run (tools/translate_locks.py, fails loudly) and the theorems are re-checked over the regenerated table: every pair of conflicting accesses from the host and DSP threads to a shared member holds a common lock or is atomic (race freedom, with the ICU vector tables as the one recorded exception), the lock-acquisition order incl. locks held across callbacks and re-entrant host callbacks is acyclic (no deadlock), and the atomic actions of the interleaving model are exactly the code's critical sections. Over the small-step interleaving semantics built from those actions and the sequential Apbp/ICU models: every value received was sent, values are observed in send order, the last value sent is observed once the sender is quiescent (safety form), every completed send with interrupts enabled has triggered the peer's interrupt and set the routed core latches, and a latch set by SignalInterrupt is seen by exactly one exchange - for all interleavings and unbounded histories, by invariants and induction.",
+   note=NOTE_COMMON + " Cannot exhibit: the C++ memory model below lock/atomic level, scheduler fairness/liveness ('eventually observed' is proved in its safety form only). The thread model (which API methods run on which thread, init-only callbacks) is hand-written and listed in the evidence assumptions; TSan is used only to confirm a reported race on the real code.",
+   tech="translator-regenerated lock table + kernel-checked race/lock-order checkers (decide +kernel) + invariant proofs over an interleaving semantics", ref="§7 C19"),
 }
 
 PENDING = "not claimed yet: model and theorems for this property are still being built (DESIGN.md §10 staging); no check is registered until it is green on the unchanged tree"
